@@ -13,7 +13,7 @@ CHECKS = {
    design_ref="DESIGN.md §5 C08, §4.8"),
  "C07": dict(
    engine="DagExec+DagTrace",
-   technique="TLA+ spec DagExec.tla model-checked by TLC over DAG shapes x schedulers (vacuity switches CreateFirst / DepRule); store get/set call-return records and callbacks of runs on the real executors validated by the TLA+ monitor DagTrace.tla",
+   technique="TLA+ spec DagExec.tla model-checked by TLC over DAG shapes x schedulers (vacuity switches CreateFirst / DepRule); store get/set call-return records and callbacks of runs on the real executors validated by the TLA+ monitor DagTrace.tla; every computation performed by the repository's own test-suite is recorded by a pytest plugin (harness/pytest_verif.py) and validated by the same monitor",
    text="TLC explores every interleaving of operation starts, task executions, chunk reads and writes for small plans and shows NoBadRead; every recorded run of generated programs on single-threaded / threads / processes executors x options, with write latency injected inside the store, is judged by the monitor: a data chunk of a produced array is read only after its producer's operation-end, which comes after the return of every write. A missing barrier is an ordering fact in the trace, not a lucky race.",
    note="Trusted: TLC; CLOCK_MONOTONIC being system-wide (cross-process ordering of non-overlapping call/return intervals); the LocalStore wrapper seeing every store access (zarr LocalStore is the only store used locally). Bounds: plans <= 5 ops in the model; generated programs <= 6 steps in runs.",
    design_ref="DESIGN.md §5 C07, §4.9"),
@@ -43,7 +43,7 @@ CHECKS = {
    design_ref="DESIGN.md §5 C04, §4.6"),
  "C05": dict(
    engine="DagExec+TaskTrace",
-   technique="TLA+ spec DagExec.tla (SingleWriter, Covered, FinalGood; a shared-chunk plan must lose an update) model-checked by TLC; store/zarr records of layout-stressing programs run one task at a time validated by the TLA+ monitor TaskTrace.tla",
+   technique="TLA+ spec DagExec.tla (SingleWriter, Covered, FinalGood; a shared-chunk plan must lose an update) model-checked by TLC; store/zarr records of layout-stressing programs run one task at a time validated by the TLA+ monitor TaskTrace.tla; every computation performed by the repository's own test-suite is recorded by a pytest plugin (harness/pytest_verif.py) and validated by the same monitor",
    text="Every store set/get and every zarr-level write of every task execution is attributed exactly (sequential adversarial executor) and judged: one writer task per chunk key, once per execution, only by the producer; no task finds another task's data in its own output (read-modify-write); writes cover whole chunks/shards of the real target grid (regular or rectilinear); at operation end the written keys cover each output. Programs: multi-stage rechunks under tight budgets (regular/irregular), stores into equal/finer/coarser/coprime/sharded targets, region stores, multi-output operators, random programs.",
    note="Trusted: TLC; one store key per chunk (or shard) in LocalStore; attribution relies on the harness executor running one task at a time. Arrays <= 120x120, <= 300 blocks per array.",
    design_ref="DESIGN.md §5 C05"),
@@ -79,7 +79,7 @@ CHECKS = {
    design_ref="DESIGN.md §5 C20, §4.3"),
  "C12": dict(
    engine="DagExec+TaskTrace",
-   technique="zarr-level write records of every task validated by the TLA+ monitor TaskTrace.tla (value shape = region shape is the enabling condition of the write action); declared vs backing vs result metadata compared in the monitor; DagExec.tla multi-output plan model-checked",
+   technique="zarr-level write records of every task validated by the TLA+ monitor TaskTrace.tla (value shape = region shape is the enabling condition of the write action); declared vs backing vs result metadata compared in the monitor; DagExec.tla multi-output plan model-checked; every computation performed by the repository's own test-suite is recorded by a pytest plugin (harness/pytest_verif.py) and validated by the same monitor",
    text="For every array of generated programs (intermediates, fused, each output of multi-output operators, qr) the metadata declared before computing must equal the backing Zarr array's and the result's, and every block a task writes must have exactly the shape of the region it is written into.",
    note="Trusted: TLC; zarr.Array.__setitem__ being the only path by which cubed writes blocks. Structured (field) arrays: block shapes checked, metadata triple not.",
    design_ref="DESIGN.md §5 C12"),
@@ -121,7 +121,7 @@ CHECKS = {
    design_ref="DESIGN.md §5 C15, §4.4"),
  "C13": dict(
    engine="DagExec+DagTrace",
-   technique="TLA+ spec DagExec.tla (EventsOk with duplicate/zombie executions) model-checked by TLC; callback streams, advertised num_tasks, task-iterable lengths and plan totals of real-executor runs validated by the TLA+ monitor DagTrace.tla",
+   technique="TLA+ spec DagExec.tla (EventsOk with duplicate/zombie executions) model-checked by TLC; callback streams, advertised num_tasks, task-iterable lengths and plan totals of real-executor runs validated by the TLA+ monitor DagTrace.tla; every computation performed by the repository's own test-suite is recorded by a pytest plugin (harness/pytest_verif.py) and validated by the same monitor",
    text="The monitor checks on every recorded run: one compute-start first and one compute-end last, per operation one start before and one end after all its task-ends, delivered task count = advertised num_tasks = length of the task iterable, plan total = sum, every runnable operation ran. Programs include region stores, differently chunked targets, multi-output operators, multi-stage rechunks, scans, fused plans; executors x options.",
    note="Trusted: TLC; the Callback API delivering events in the client thread (total order by per-process sequence number). Bounds as C07.",
    design_ref="DESIGN.md §5 C13, §4.9"),
